@@ -121,6 +121,7 @@ class Ctx:
             "host_tz": getattr(self, "host_tz", None),
             "hash_seed": os.environ.get("PYTHONHASHSEED"),
             "optimize": bool(sys.flags.optimize),
+            "no_cet": os.environ.get("VF_NO_CET") == "1",
             "evaluations": self.evaluations,
             "distinct": sorted(self._distinct),
             "distinct_by_construction": self.distinct_by_construction,
